@@ -479,7 +479,21 @@ func (s *SQLiteStore) streamBatched(
 			return
 		}
 
-		batchCount, lastPos, cont := s.streamBatch(rows, eventCount, iterErr, yield)
+		// Check for cancellation before every event, as the unbatched stream does
+		checked := func(event *eventbus.StoredEvent, err error) bool {
+			if err == nil {
+				select {
+				case <-ctx.Done():
+					*iterErr = ctx.Err()
+					yield(nil, *iterErr)
+					return false
+				default:
+				}
+			}
+			return yield(event, err)
+		}
+
+		batchCount, lastPos, cont := s.streamBatch(rows, eventCount, iterErr, checked)
 		if !cont {
 			return
 		}
@@ -525,6 +539,15 @@ func (s *SQLiteStore) streamBatch(
 			rows.Close() // Best effort close on early termination
 			return batchCount, lastPos, false
 		}
+	}
+
+	// rows.Next also returns false when the iteration failed or the context was
+	// cancelled in the middle of the batch: that must not look like the end of the log
+	if err := rows.Err(); err != nil {
+		rows.Close()
+		*iterErr = fmt.Errorf("sqlite: iterate events: %w", err)
+		yield(nil, *iterErr)
+		return batchCount, lastPos, false
 	}
 
 	if err := rows.Close(); err != nil {
